@@ -17,7 +17,7 @@ LEVEL_TEXT = (
 
 CHECKS = {
     "C02": dict(
-        rules="R02.1-R02.18",
+        rules="R02.1-R02.18, R11.11",
         what="every accepting return of find_cache_meta/validate_meta is dominated by a rejecting gate for each required meta field (or its named bypass); SCC freshness is the conjunction of its three tests (truth-table evaluation); State.is_fresh conjuncts; cached errors of fresh modules are replayed; stored and compared values of each gate field come from the same producer; the indirect-dependency visitor reaches every type component; the fast path and the import-cycle path of transitive_dep_hash select and hash the same dependencies; protocol member types (inherited members, setter types) reach the indirect dependencies; the signature of an implicitly called dunder method is recorded for them (known finding); generic callee type variables (known finding); de-duplication scope vs cached lines (known finding); the plugins snapshot is replaced only after process_graph (CFG); only hashed dependencies count as existing when indirect dependencies are patched in; every `Metadata abandoned` test of find_cache_meta looks at the meta (one known finding: plugins)",
         quant="edit histories with a run after every edit, in four store x format configurations",
         technique="CFG must-pass-through with polarity, abstract (truth-table) evaluation of the freshness flag, producer cross-check, component-coverage matrix",
@@ -25,7 +25,7 @@ CHECKS = {
         design="DESIGN.md §4 C02",
     ),
     "C03": dict(
-        rules="R03.1-R03.15 (+R20.1 bound via C20)",
+        rules="R03.1-R03.17 (+R20.1 bound via C20)",
         what="order of the re-processing pipeline in reprocess_nodes and of the propagation loop; type snapshots read every __eq__ field; component-coverage matrix of the astmerge / deps / astdiff type visitors; the follow-imports walk queues every module found changed (never filtered by the set the finder marks); every daemon check response computes its status by main()'s predicate; list/set twin fields of a build State are written together; `not in` generates the __contains__ dependency; a partial re-check regenerates the ignore-comment diagnostics a whole-module update produces (two known findings); MRO walks in the dependency visitor add the member dependency for every base visited; protocol-dependency filters test module names; Var flags that decide member-access diagnostics are in the Var snapshot",
         quant="edit histories checked after every step",
         technique="CFG must-pass-through ordering, sibling cross-check (__eq__ fields vs snapshot reads), component-coverage matrix",
@@ -33,7 +33,7 @@ CHECKS = {
         design="DESIGN.md §4 C03",
     ),
     "C04": dict(
-        rules="R04.1-R04.9",
+        rules="R04.1-R04.10",
         what="atomic temporary+os.replace publication and OSError containment in the file store; every MetadataStore.write result checked; no CacheMeta after a failed data write/getmtime; data before meta, provenance of the meta pair, dep_hashes before the meta write, commit after every write group; old meta_ex invalidated before a new meta becomes durable; find_cache_meta treats a missing meta_ex as a miss; a module's records share one shard of the sqlite store (names differ only after the first dot of the basename, which is all the shard key reads); the data write is skipped only after the stored data record was read and compared; blocking errors reported by the build-wide cache writers after process_graph are raised before dispatch returns",
         quant="kill points and failing store operations",
         technique="CFG must-pass-through / reachability queries over the cache-writing functions, who-may-write rule",
@@ -41,7 +41,7 @@ CHECKS = {
         design="DESIGN.md §4 C04",
     ),
     "C05": dict(
-        rules="R05.1-R05.16",
+        rules="R05.1-R05.17",
         what="every primitive bound to a literal C function name (~380 bindings) has a C declaration in mypyc/lib-rt of matching arity whose parameter/return types are ABI-compatible with the declared RPrimitives; declared error kinds agree with what the C body can return (ERR_NEVER vs `return NULL`, ERR_FALSE vs truth type, ERR_NEG_INT vs signed int; ERR_NEVER vs returning the result of a fallible callee); bindings made through helper functions and literal loops are resolved; in-place operators bound to in-place C APIs; the coerce truth table; the environment link of a nested function survives completion on a condition that consults only what the code following the link consults; result types without a spare error value never declare ERR_MAGIC; the defaults-setup chain searches the whole mro because the declaration is registered on an own-body test; a bound C function returns its error value only after a call that can have set an exception; an operator spelling is bound to the C function carrying that operator's word; loop-inlining specialisers translate the call's other arguments before the loop; pass order of compile_scc_to_ir; both try/finally lowerings reset the pending-return register on the non-return entries; lib-rt never passes an unchecked difference/parameter as a bytes size; sign tests on `index` parameters include 0 on the non-negative side; the str.encode/bytes.decode fast paths accept exactly CPython's aliases",
         quant="programs x argument values x optimisation levels x build modes",
         technique="cross-language table check: Python AST of the primitive registry against clang's JSON AST of lib-rt; CFG ordering of the pass pipeline",
@@ -49,7 +49,7 @@ CHECKS = {
         design="DESIGN.md §4 C05",
     ),
     "C06": dict(
-        rules="R06.1-R06.20, R05.3",
+        rules="R06.1-R06.21, R05.3",
         what="per-Op agreement of sources()/set_sources()/stolen() and PatchVisitor; borrow flag honoured by code generation; who may create IncRef/DecRef and which visit methods the post-refcount passes override; every emitter that initialises/traverses/clears/recycles instance storage covers the attributes of all classes in base_mro; memo keys of the exception transform; ERR_* exhaustiveness; definedness checks before every reading op; the two borrow-chain walks (lifetime scope, reassigned root) step through the same op kinds; a primitive's is_borrowed flag agrees with whether the bound C function takes a reference to a result it reads from a container slot / borrowing API; an argument declared stolen is given away on every exit of the C function (structured walk over clang's statement tree), and a function that gives a parameter away either owns it (declared stolen) or takes its own reference; the must-defined CFG has an unconditional edge to the handler of every normal successor; the generated constructor tests the failure value both calling conventions of __init__ produce; the definedness bitmap is cleared by `del`; attribute facts of __init__ are credited only to ops whose receiver is self; a stealing op that fails releases its operand (Cast: known finding); pass order of compile_scc_to_ir; conclusions from __init__ attribute facts respect the self-leak analysis, which looks for `self` in every operand-keeping op; lib-rt releases a replaced slot only after the store; glue code unboxes borrowed; preallocated comprehension results (known finding)",
         quant="function IR of all compiled programs, on every path",
         technique="sibling cross-check of the three declarations of each Op's operand set; who-may-create rule; CFG ordering of the pass pipeline; cross-language ownership check of the primitive registry against clang's AST of lib-rt (borrowed results, stolen arguments)",
@@ -65,7 +65,7 @@ CHECKS = {
         design="DESIGN.md §4 C07",
     ),
     "C13": dict(
-        rules="R13.1-R13.13",
+        rules="R13.1-R13.14",
         what="blockers never reach the ignore logic; suppressed-by-ignore implies recorded-as-used, only for enabled codes, and nothing else records; decision order of is_error_code_enabled (explicit disable, explicit enable, parent disabled); who may append to the error map; exit status truth table over (message, non-note, blockers, install override) and its data-flow to sys.exit; generators of diagnostics that bypass is_error_code_enabled are guarded by their own code not being disabled (truth table over the guard's atoms); the only-once slot is claimed only by recorded messages; notes next to coded errors carry a code; the ErrorWatcher stack sees every error before any code/ignore decision",
         quant="programs x ignore placements x code selections",
         technique="CFG must-pass / reachability, guard chains, who-may-call, abstract evaluation of the exit-status assignments",
@@ -73,7 +73,7 @@ CHECKS = {
         design="DESIGN.md §4 C13",
     ),
     "C08": dict(
-        rules="R08.1-R08.8",
+        rules="R08.1-R08.9",
         what="every SubtypeContext flag, proper_subtype and state.strict_optional is a component of the subtype memo key; every context/global attribute read by the subtype visitor is keyed; lookups and records address the same entry with the same key and operands and the right polarity; hashed fields of every Type class are compared by __eq__; join/meet tuple siblings share their preamble; the subtype caches are written only by visit_instance and is_protocol_implementation, and in the latter only when the question-changing parameters (class_obj, skip) are excluded; protocol checks about a class object (TypeType item, instance type of a type object) pass class_obj=True; no positive cache entry is recorded while a co-inductive assumption is pending; hashed fields of types are assigned only on objects the same function created (type-checking-time modules); __eq__/__hash__ of Type subclasses compare components whole; no positive cache entry after a protocol assumption was relied on",
         quant="pairs and triples of types",
         technique="who-may-read rule over subtypes.py against the key tuple; sibling cross-check of lookup/record and of __hash__/__eq__",
@@ -81,7 +81,7 @@ CHECKS = {
         design="DESIGN.md §4 C08",
     ),
     "C14": dict(
-        rules="R14.1-R14.11",
+        rules="R14.1-R14.12",
         what="both front ends can construct the same set of AST node classes; per node class the semantic attributes set at construction agree (branch-sensitive tracking); Errors.report clamps end positions before building ErrorInfo; every statement list that becomes a block went through overload merging in both front ends and the native shortcut rests on a monotone function counter; parse-time message_registry diagnostics of the default parser are reported by the native parser too; the two parsers of Arg(...) constructors report each diagnostic under the same tests; folded f-string text lands in a kept node; a diagnostic both front ends report under a count test is reported for the same counts; the shared parameter-list helpers (sharedparse.*, nodes.check_param_names) are applied by both front ends; the conditional-overload helpers of both front ends thread the overload name through their recursion",
         quant="source files without type comments and their corruptions",
         technique="sibling cross-check of the two parser front ends over the resolved constructors; CFG must-pass for the position clamps",
@@ -97,7 +97,7 @@ CHECKS = {
         design="DESIGN.md §4 C09",
     ),
     "C10": dict(
-        rules="R10.1-R10.6",
+        rules="R10.1-R10.7",
         what="every iteration over a set in mypy/ is consumed order-insensitively (recognised structurally) or individually tabled; every hash()/id()/urandom/time call site classified; every process-global mutable binding reset on the build entry path or tabled; a once-per-build slot is claimed only by a message that is then recorded; a plugin given by path is not taken from sys.modules when that entry came from another file",
         quant="hash seeds, file orders and preceding builds",
         technique="type-directed lint over the resolved program (set-typed iterables by annotation-driven typing), effect classification of loop bodies, reaching reset analysis from build.build",
@@ -113,7 +113,7 @@ CHECKS = {
         design="DESIGN.md §4 C11",
     ),
     "C20": dict(
-        rules="R20.1, R20.3-R20.15, R12.3, R20.2",
+        rules="R20.1, R20.3-R20.16, R12.3, R20.2",
         what="every loop that re-queues deferred work has a per-iteration counter compared with a constant bound that leaves the loop; type-checker deferral limited by pass_num < last_pass; partial arithmetic operators of the constant folders guarded against every failure precondition; placeholder-triggered deferrals are conditional on not being in the final iteration (defer() asserts it); constant-valued index variables are range-checked against len() of the subscripted sequence; the guard before `assert add_symbol(...)` in push_type_args recognises every type-parameter node kind and rejected parameters are not returned; no branch reports an `internal error` message as its planned outcome; a saved list index accounts for later deletions; pop() on a set built in the function is dominated by a non-emptiness test; names from configuration are not unchecked keys of the error-code registry; Instance asserts after is_subtype come after the TypeVar/union/Any cases",
         quant="input programs",
         technique="CFG cycle/must-pass queries for counter-bounded fix-points; guard-chain analysis of partial operators",
@@ -129,7 +129,7 @@ CHECKS = {
         design="DESIGN.md §4 C12",
     ),
     "C15": dict(
-        rules="R15.0-R15.10",
+        rules="R15.0-R15.11",
         what="int/float/fixed-width primitive bindings agree with their C signatures and error kinds; a primitive whose result type has no spare error value (error_overlap) never declares plain ERR_MAGIC; each operator spelling of int/float primitives is bound to that operator's C function; every raw C division/modulo IntOp is emitted under a zero(-1)-excluding guard; every Truncate of a possibly out-of-range value is dominated by the two-sided range check; the inline fast path of tagged-int multiplication cannot wrap under its guard (interval arithmetic on the guard's constant bounds, from clang's expression trees); a boxed int is built only under a does-not-fit test; raw C shifts of native ints are emitted only after a count check (known finding); literal arguments of explicit conversions are not folded by masking (known finding); a floored quotient is snapped to the nearest integer (float //)",
         quant="operator x operand type x boundary values",
         technique="cross-language table check against clang's AST; guard-chain and CFG dominance checks in the IR builder",
@@ -137,7 +137,7 @@ CHECKS = {
         design="DESIGN.md §4 C15",
     ),
     "C16": dict(
-        rules="R16.1-R16.9",
+        rules="R16.1-R16.10",
         what="exception containment of the serve loop by may-raise summaries; status-file removal on every CFG exit of serve; per-connection reset of IPCServer framing state; frame consumption order in frame_from_buffer and writer/reader header agreement; request keys are membership-tested, **data reaches a command only after signature binding, a rejected stop does not exit; rejected requests flush the file system cache; handlers do not assert on request data",
         quant="client behaviours and stream segmentations",
         technique="interprocedural may-raise summaries + CFG must-pass-through / pairing queries",
@@ -145,7 +145,7 @@ CHECKS = {
         design="DESIGN.md §4 C16",
     ),
     "C17": dict(
-        rules="R17.1-R17.11",
+        rules="R17.1-R17.12",
         what="command-line dests vs Options attributes; converter completeness for documented config keys; ini/toml converter table agreement and inversion prefixes; inline comments and per-module sections routed through parse_section; each section applied by its own apply_changes call; precedence orderings by construction (config file before command line, structured before unstructured sections, inline on top); the command line's --strict step is conditional only on the command-line namespace; every list option that apply_changes replays is reset by each section",
         quant="options x sources x conflicting pairs",
         technique="table/AST cross-check of main.define_options, config_parser tables, Options.__init__ and docs/source/config_file.rst",
@@ -155,7 +155,7 @@ CHECKS = {
 }
 
 CHECKS["C18"] = dict(
-    rules="R18.1-R18.5",
+    rules="R18.1-R18.6",
     what="graph insertion discipline of build.load_graph: every insertion of a State is dominated by the clash test for its kind (module id already in the graph; file already seen under another id), the clash branch reports a blocker and raises, inserted paths are recorded; find_sources and modulefinder share one suffix table with the stub suffix first and one package marker; verify_module decides `every containing package has an __init__` level by level, not from the topmost level that has one",
     quant="directory layouts x flag settings x argument orders",
     technique="CFG must-pass / reachability queries over load_graph; constant evaluation and sibling cross-check of the two path-mapping modules' tables",
@@ -164,7 +164,7 @@ CHECKS["C18"] = dict(
 )
 
 CHECKS["C19"] = dict(
-    rules="R19.1-R19.5",
+    rules="R19.1-R19.6",
     what="definition-kind coverage: every statement kind for which stubgen's DefinitionFinder records a top-level name has an emitting visit method in ASTStubGenerator; the string-producing visitors (AliasPrinter, AnnotationPrinter) return a value on every path of every visit method; decorators collected for a function are cleared on every path on which visit_func_def does not emit it; per-class state of visit_class_def is restored (not reset) when a class ends; unary operators that are words are not glued to their operand",
     quant="generated modules x definition kinds x modes",
     technique="sibling cross-check of the two visitors' method sets with reachability of the emission call inside the generator class; CFG must-pass (every path returns a value) over the printers' methods",
